@@ -5,7 +5,7 @@ vartype_t::dtype) and of the run-time argument validation modeKernel_t::setupRun
 (src/occa/internal/core/kernel.cpp).                                   Properties C10, C11.
 
 The model follows the code *with the fixes F12, F12b, F13, F14, F14b, F15, F15b applied*
-(fixes/F1*.patch); `OccaGen/Builtins.lean` records, regenerated from the current source, whether
+(fixes/F1*.patch, incl. F13b); `OccaGen/Builtins.lean` records, regenerated from the current source, whether
 each of those repairs is present (`Gen.cyclicGuard`, `Gen.leafStructural`, ...), and
 `OccaProofs/Props/C10.lean`, `C11.lean` state them as obligations.
 
@@ -237,7 +237,7 @@ mutual
     | .prim n => [.prim n]
     | .custom n b => [.custom n b]
     | .enum_ _ b es => [.enum_ b es]
-    | .tuple _ e k => repeatList k.toNat e.flatten
+    | .tuple _ e k => repeatList (if Gen.unknownExtentFlattensOne && decide (k < 0) then 1 else k.toNat) e.flatten
     | .struct _ fs => fs.flatten
     | .union_ _ fs => fs.flatten
   def Fields.flatten : Fields → List Leaf
